@@ -7,7 +7,9 @@ import vlib
 
 _G = None
 
-IDKIND = {"ModuleDeclarationAnsi": "ModuleIdentifier", "ModuleDeclarationNonansi": "ModuleIdentifier", "InterfaceDeclarationAnsi": "InterfaceIdentifier",
+IDKIND = {"ModuleDeclarationWildcard": "ModuleIdentifier", "InterfaceDeclarationWildcard": "InterfaceIdentifier", "ProgramDeclarationWildcard": "ProgramIdentifier",
+          "InterfaceClassDeclaration": "ClassIdentifier",
+          "ModuleDeclarationAnsi": "ModuleIdentifier", "ModuleDeclarationNonansi": "ModuleIdentifier", "InterfaceDeclarationAnsi": "InterfaceIdentifier",
           "ProgramDeclarationAnsi": "ProgramIdentifier", "PackageDeclaration": "PackageIdentifier", "ClassDeclaration": "ClassIdentifier",
           "AnsiPortDeclaration": "PortIdentifier", "ParamAssignment": "ParameterIdentifier", "NetDeclAssignment": "NetIdentifier",
           "VariableDeclAssignment": "VariableIdentifier", "TypeIdentifier": "TypeIdentifier", "FunctionDeclaration": "FunctionIdentifier",
